@@ -192,7 +192,7 @@ def eq_content(case: int, v1: str, v2: str, v3: str, rot: int, with_charts: bool
     return (a != b) and not (a == b)
 
 
-SMOPS = 14
+SMOPS = 17
 
 
 def smchart_step(op: int, i: int, v: str, f0: str) -> bool:
@@ -247,16 +247,24 @@ def smchart_step(op: int, i: int, v: str, f0: str) -> bool:
         elif op == 12:
             refused = False
             ch.pop("ZZFRESH", None)
-        else:
+        elif op == 13:
             refused = False
             ch.setdefault("ZZFRESH", v)
+        elif op == 14:
+            ch.move_to_end(key)                       # reordering the mapping neither adds nor removes a key
+        elif op == 15:
+            ch.move_to_end(key, last=False)
+        else:
+            ch = SMChart()                            # the six fields assigned in reverse order on an empty chart
+            for j in range(5, -1, -1):
+                setattr(ch, SM_CHART_PROPERTIES[j].lower(), model[j])
     except (KeyError, NotImplementedError):
         refused = True
     if refused is False:
         LAST = ("not refused", op)
         return False
     # six fixed fields, in order, in both views
-    if list(ch.keys()) != list(SM_CHART_PROPERTIES):
+    if (sorted(ch.keys()) != sorted(SM_CHART_PROPERTIES)) if op >= 14 else (list(ch.keys()) != list(SM_CHART_PROPERTIES)):
         LAST = ("keys", list(ch.keys()))
         return False
     for j, k in enumerate(SM_CHART_PROPERTIES):
